@@ -45,6 +45,11 @@ def build_values():
         out[f"GridSpec:{k}"] = GridSpec(c, (8, 8), Resolution(10.0, -10.0))
         out[f"Geometry:{k}"] = box(0, 0.5, 1, 2, c)
         out[f"GeoboxTiles:{k}"] = GeoboxTiles(GeoBox((10, 20), A, c), (4, 5))
+    from odc.geo.geom import Geometry
+    from vlib.c19vals import geometry_zoo
+    zoo = geometry_zoo()
+    for k in ("gc-mixed", "gc-nested", "gc-empty", "ring", "point-3d", "polygon-3d", "gc-3d", "empty-polygon", "polygon-with-hole"):
+        out[f"Geometry:{k}"] = Geometry(zoo[k], crss["epsg"])
     out["BoundingBox:none"] = BoundingBox(0, 0, 1, 2)
     out["GeoBox:none"] = GeoBox((3, 4), A, None)
     out["Geometry:none"] = point(1.5, 2, None)
